@@ -245,7 +245,70 @@ func H_C19_typed(v *V) {
 	v.Assert(err != nil && typed && t == want, "the declaration is rejected with the corresponding typed error")
 }
 
+// refRequired: the documented readings of a positional `required` value:
+// empty = not required (-1, -1); "N" = at least N; "N-M" = between N and M;
+// a part that is not a number leaves the default (1 for the minimum, no
+// maximum).
+func refRequired(r string) (min, max int) {
+	if r == "" {
+		return -1, -1
+	}
+	min, max = 1, -1
+	num := func(s string) (int, bool) {
+		if len(s) == 0 || len(s) > 3 {
+			return 0, false
+		}
+		n := 0
+		for i := 0; i < len(s); i++ {
+			if s[i] < '0' || s[i] > '9' {
+				return 0, false
+			}
+			n = n*10 + int(s[i]-'0')
+		}
+		return n, true
+	}
+	if k := refIndexByte(r, '-'); k >= 0 {
+		if n, ok := num(r[:k]); ok {
+			min = n
+		}
+		if n, ok := num(r[k+1:]); ok {
+			max = n
+		}
+		return
+	}
+	if n, ok := num(r); ok {
+		min = n
+	}
+	return
+}
+
+// H_C19_required: the count attribute of a positional argument.
+func H_C19_required(v *V) {
+	R := v.String(v.Shape("lv"))
+	dashes := 0
+	for i := 0; i < len(R); i++ {
+		v.Assume((R[i] >= '0' && R[i] <= '9') || R[i] == '-' || R[i] == 'y')
+		if R[i] == '-' {
+			dashes++
+		}
+	}
+	v.Assume(dashes <= 1) // "N" and "N-M" are the documented forms
+	data := vTagged(v, "p", []string{`positional-args:"yes"`, "required:" + refQuote(R)})
+	p := NewNamedParser("prog", None)
+	_, err := p.AddGroup("Outer", "", data)
+	v.Assert(err == nil && len(p.Args()) == 1, "a legal positional tag is accepted")
+	if err != nil || len(p.Args()) != 1 {
+		return
+	}
+	v.Reach("read")
+	a := p.Args()[0]
+	wmin, wmax := refRequired(R)
+	v.ObserveInt("min", a.Required)
+	v.Assert(a.Required == wmin && a.RequiredMaximum == wmax, "positional counts (N, N-M) are read faithfully")
+}
+
 func init() {
+	vHarnesses["H_C19_required"] = H_C19_required
 	vHarnesses["H_C19_wellformed"] = H_C19_wellformed
 	vHarnesses["H_C19_structure"] = H_C19_structure
 	vHarnesses["H_C19_malformed"] = H_C19_malformed
